@@ -162,7 +162,12 @@ namespace awkward {
   void
   ToJsonString::complex(std::complex<double> x) {
     if (complex_real_string_ != nullptr  &&  complex_imag_string_ != nullptr) {
-      impl_->complex(x, complex_real_string_, complex_imag_string_);
+      impl_->beginrecord();
+      impl_->field(complex_real_string_);
+      real(x.real());
+      impl_->field(complex_imag_string_);
+      real(x.imag());
+      impl_->endrecord();
     }
     else {
       throw std::invalid_argument(
@@ -303,7 +308,12 @@ namespace awkward {
   void
   ToJsonPrettyString::complex(std::complex<double> x) {
     if (complex_real_string_ != nullptr  &&  complex_imag_string_ != nullptr) {
-      impl_->complex(x, complex_real_string_, complex_imag_string_);
+      impl_->beginrecord();
+      impl_->field(complex_real_string_);
+      real(x.real());
+      impl_->field(complex_imag_string_);
+      real(x.imag());
+      impl_->endrecord();
     }
     else {
       throw std::invalid_argument(
@@ -448,7 +458,12 @@ namespace awkward {
   void
   ToJsonFile::complex(std::complex<double> x) {
     if (complex_real_string_ != nullptr  &&  complex_imag_string_ != nullptr) {
-      impl_->complex(x, complex_real_string_, complex_imag_string_);
+      impl_->beginrecord();
+      impl_->field(complex_real_string_);
+      real(x.real());
+      impl_->field(complex_imag_string_);
+      real(x.imag());
+      impl_->endrecord();
     }
     else {
       throw std::invalid_argument(
@@ -590,7 +605,12 @@ namespace awkward {
   void
   ToJsonPrettyFile::complex(std::complex<double> x) {
     if (complex_real_string_ != nullptr  &&  complex_imag_string_ != nullptr) {
-      impl_->complex(x, complex_real_string_, complex_imag_string_);
+      impl_->beginrecord();
+      impl_->field(complex_real_string_);
+      real(x.real());
+      impl_->field(complex_imag_string_);
+      real(x.imag());
+      impl_->endrecord();
     }
     else {
       throw std::invalid_argument(
